@@ -1108,9 +1108,36 @@ func sliceElementValues(v ssa.Value) []ssa.Value {
 		return vals
 	}
 	var out []ssa.Value
+	// a slice variable captured by a closure lives in a cell: every load of the cell is the same slice
+	if ld, ok := v.(*ssa.UnOp); ok && ld.Op == token.MUL {
+		if al, ok := ld.X.(*ssa.Alloc); ok && al.Referrers() != nil {
+			for _, r := range *al.Referrers() {
+				switch x := r.(type) {
+				case *ssa.UnOp:
+					if x != ld && x.Referrers() != nil {
+						for _, r2 := range *x.Referrers() {
+							if ia, ok := r2.(*ssa.IndexAddr); ok {
+								for _, r3 := range *ia.Referrers() {
+									if st, ok := r3.(*ssa.Store); ok && st.Addr == ia {
+										out = append(out, st.Val)
+									}
+								}
+							}
+						}
+					}
+				case *ssa.Store:
+					if x.Addr == ssa.Value(al) {
+						if _, isLoad := x.Val.(*ssa.UnOp); !isLoad {
+							out = append(out, sliceElementValues(x.Val)...)
+						}
+					}
+				}
+			}
+		}
+	}
 	refs := v.Referrers()
 	if refs == nil {
-		return nil
+		return out
 	}
 	for _, r := range *refs {
 		if ia, ok := r.(*ssa.IndexAddr); ok {
